@@ -42,7 +42,7 @@ fn pure_case(case: &Case, ev: &Evidence) -> CaseResult {
     let mut rng = SplitMix::new(((case.c(2) as u64) << 32) | ((case.c(3) as u64) << 16) | case.c(4) as u64, 13);
     // ops perturb the stream so that shrinking has something to drop
     for op in &case.ops {
-        rng.0 ^= (op[0] as u64) << 7 | (op[1] as u64) << 23;
+        rng.perturb((op[0] as u64) << 7 | (op[1] as u64) << 23);
     }
     ev.eval(1);
     let sub = pick(case.c(5), 7);
